@@ -93,11 +93,23 @@ contract(FRAME, 'Frame.columns', key='Frame.columns', property=True, assumed=Tru
     params=dict(self='Frame'), order=['self'], result='Index', ensures=['result == self._columns'])
 contract(FRAME, 'Frame.keys', key='Frame.keys', assumed=True,
     params=dict(self='Frame'), order=['self'], result='Index', ensures=['result == self._columns'])
-# TypeBlocks.extend(TypeBlocks): all-or-nothing (the row check precedes the loop; every block of a well-formed TypeBlocks has its row count)
-contract(TB, 'TypeBlocks.extend', key='TypeBlocks.extend', assumed=True, modifies_self=True,
+# TypeBlocks.extend(TypeBlocks): all-or-nothing (the row check precedes the loop; every block of a well-formed TypeBlocks
+# has its row count, so only the FIRST append can be rejected).  Proved; callers (FrameGO.extend) use this contract.
+contract(TB, 'TypeBlocks.extend', key='TypeBlocks.extend', modifies_self=True,
+    props=['C09'],
     params=dict(self='TypeBlocks', other='TypeBlocks'), order=['self', 'other'], result='none',
+    rec_classes={'TypeBlocks': ['TypeBlocks']},
     requires=['TBWF(self)', 'TBWF(other)'],
     raises={'RuntimeError': 'self._shape[0] != other._shape[0] and (self._shape[0] != 0 or len(other._blocks) > 0)'},
+    raise_ensures=['self == old(self)'],
+    n_loops=1,
+    loops={0: dict(index='t', invariant=[
+        'TBWF(self) and blocks == other._blocks',
+        'implies(t == 0, self == old(self))',
+        'implies(t > 0, self._shape[0] == other._shape[0]) and self._shape[0] == old(self._shape[0])',
+        'self._shape[1] == old(self._shape[1]) + at(other._offs, t)',
+        'len(self._blocks) >= old(len(self._blocks)) and forall_in(0, old(len(self._blocks)), lambda k: at(self._blocks, k) == at(old(self._blocks), k))',
+    ], locals=dict(blocks='list[arr]'))},
     ensures=['TBWF(self)', 'self._shape[0] == old(self._shape[0])', 'self._shape[1] == old(self._shape[1]) + other._shape[1]',
              'forall_in(0, old(len(self._blocks)), lambda k: at(self._blocks, k) == at(old(self._blocks), k))'])
 
